@@ -59,6 +59,10 @@ def inv(dst, src):
     return ["inv", dst, src]
 
 
+def split(dst, src):
+    return ["split", dst, src]
+
+
 def drop(slot):
     return ["drop", slot]
 
@@ -356,6 +360,8 @@ def snippet(ops, nslots):
             lines.append(tryit(f"s[{o[1]}] = {cls}({a}, {o[4]!r}{kw})"))
         elif t == "inv":
             lines.append(tryit(f"s[{o[1]}] = ~s[{o[2]}]"))
+        elif t == "split":
+            lines.append(tryit(f"parts = list(s[{o[2]}].split()); s[{o[1]}:{o[1]}+len(parts)] = parts[:max(0, {nslots}-{o[1]})]; del parts"))
         elif t == "drop":
             lines.append(f"s[{o[1]}] = None")
         elif t == "query":
@@ -437,6 +443,7 @@ NSLOTS = 13
 TEMPLATES = [([0, "+", 0], ".+."), ([0, "+", 0, "+", 0], "(+)+."), ([0, 1, "+", 1, "+", 0], "((+)+)"),
              ([0, "+", 1], ".+."), ([0], "."), ([0, 1, "+", 2, 3], "((+))"), ([0, "+", 1, "+", 0, "+", 1], "(+(+)+)"),
              (["x", 1, "+", "x", 1], "..+.."), ([2, "+", 3, "+", 2, "+", 3], ".+.+.+.")]
+TEMPLATES += [([0, 1, "+", 1, 0, 2], "()+..."), ([0, "+", 1, "+", 2, "+", 1], "(+.+)+."), ([0, 0, "+", 1, "+", 1, 0], "..+.+..")]
 BAD_TEMPLATES = [([0, "+", 1], ")+("), ([0, 1], "."), ([0, "+", 1], "(+."), (["+"], "+"), ([], ""), ([0, "+", "+", 1], "(++)")]
 
 
@@ -515,6 +522,8 @@ def random_history(rng, length, classes=None, p_sub=0.3, weird=0.05):
             ps = [ref(pool) for _ in range(rng.randrange(0, 3))]
             ops.append(rxn(rng.choice(LAYOUT["R"]), c, rs, ps, rng.choice(["bind21", "open", "condensed", None, "weird"]),
                            rng.choice([None, None, None, "r1", "r2"])))
+        elif r < 0.80:
+            ops.append(split(rng.choice(LAYOUT["C"]), ref(LAYOUT["C"])))
         elif r < 0.89:
             ops.append(drop(ref(list(range(NSLOTS)))))
         elif r < 0.95:
